@@ -25,8 +25,9 @@ ordinal rules of `en`, `uk`, `sv` on non-integers.  The driver predicts the impl
 
 Contracts (external code that is not transcribed): `f64::to_string` = `Num.display` on the
 ≤ 15-significant-digit domain; `u64::from_str`; fluent-langneg `Lookup` negotiation against the
-crate's locale table (modelled only for the languages of `knownLanguages` and for languages the
-crate does not know at all).
+crate's locale tables (modelled for locales of the shape `lang[-REGION]` whose language is in
+`knownLanguages` or absent from the crate's tables; the tables' only region-specific entry is
+cardinal `pt-PT`).
 -/
 namespace FluentModel.Plural
 open FluentModel FluentModel.Num
@@ -206,6 +207,12 @@ def cardLt : Rule := fun o =>
   else if o.f != 0 then .many
   else .other
 
+/-- pt (CLDR 37): one: i = 0..1 -/
+def cardPt : Rule := fun o => if inRange o.i 0 1 then .one else .other
+
+/-- pt-PT (CLDR 37, the only region-specific entry of the crate's tables): one: i = 1 and v = 0 -/
+def cardPtPT : Rule := fun o => if o.i == 1 && o.v == 0 then .one else .other
+
 /-- ja: no categories -/
 def cardJa : Rule := fun _ => .other
 
@@ -265,7 +272,7 @@ def ordOther : Rule := fun _ => .other
 
 /-- languages the model has rules for (all of them are in both of the crate's tables) -/
 def knownLanguages : List String :=
-  ["en", "pl", "ru", "ar", "fr", "cs", "lt", "ja", "de", "uk", "sl", "cy", "ro", "sv"]
+  ["en", "pl", "ru", "ar", "fr", "cs", "lt", "ja", "de", "uk", "sl", "cy", "ro", "sv", "pt"]
 
 /-- the CLDR rule of a (negotiated) language -/
 def cldrRule (lang : String) (ty : NumType) : Rule :=
@@ -274,7 +281,7 @@ def cldrRule (lang : String) (ty : NumType) : Rule :=
     match lang with
     | "pl" => cardPl | "ru" => cardRu | "uk" => cardRu | "ar" => cardAr | "fr" => cardFr
     | "cs" => cardCs | "lt" => cardLt | "ja" => cardJa | "sl" => cardSl | "cy" => cardCy
-    | "ro" => cardRo
+    | "ro" => cardRo | "pt" => cardPt | "pt-PT" => cardPtPT
     | _ => cardEn                   -- en, de, sv
   | .ordinal =>
     match lang with
@@ -329,14 +336,35 @@ def crateRule (lang : String) (ty : NumType) : Rule :=
   | .ordinal, "sv" => crateOrdSv
   | _, _ => cldrRule lang ty
 
-/-- `types/plural.rs` `construct`: `negotiate_languages(&[lang], get_locales(type), Some("en"), Lookup)[0]`.
-Region/script/variants are dropped by the lookup; a language without rules falls back to `en`. -/
-def ruleLocale (locale : String) : String :=
-  -- the language subtag: the bytes before the first `-`
-  let lang := (strBytes locale).takeWhile (· != 45)
-  match knownLanguages.find? (fun l => strBytes l == lang) with
-  | some l => l
+/-- shape of a bundle locale the negotiation is modelled for: `lang` (2–3 lower-case letters) optionally
+followed by `-REGION` (2 upper-case letters or 3 digits), in canonical case.  `none` = anything else
+(script, variants, other case): outside the model, the driver answers `unsupported`. -/
+def localeShape (locale : String) : Option (Bytes × Option Bytes) :=
+  let bs := strBytes locale
+  let lang := bs.takeWhile (· != 45)
+  let rest := bs.dropWhile (· != 45)
+  let lower := fun (b : UInt8) => 97 ≤ b && b ≤ 122
+  let upper := fun (b : UInt8) => 65 ≤ b && b ≤ 90
+  if !((lang.length == 2 || lang.length == 3) && lang.all lower) then none
+  else match rest with
+    | [] => some (lang, none)
+    | _ :: region =>
+      if (region.length == 2 && region.all upper) || (region.length == 3 && region.all isDigit)
+      then some (lang, some region) else none
+
+/-- `types/plural.rs` `construct`: `negotiate_languages(&[lang], get_locales(type), Some("en"), Lookup)[0]`
+(fluent-langneg 0.13 `filter_matches`): 1) an exact entry wins — the crate's tables have exactly one
+region-specific entry, cardinal `pt-PT`; 2) otherwise the entry of the bare language matches every
+region (available locales are ranges): `pt-BR`, `pt-AO`, ordinal `pt-PT` → `pt`, `en-US` → `en`;
+the later steps never change the language, so a language without an entry yields the default `en`. -/
+def ruleLocale (locale : String) (ty : NumType) : String :=
+  match localeShape locale with
   | none => "en"
+  | some (lang, region) =>
+    if ty == .cardinal && lang == [112, 116] && region == some [80, 84] then "pt-PT"
+    else match knownLanguages.find? (fun l => strBytes l == lang) with
+      | some l => l
+      | none => "en"
 
 /-- `pr.0.select(b)`: operands, then the rule closure; `none` = the Rust code panics -/
 def pluralCategoryWith (rule : NumType → Rule) (n : FluentNumber) : Option Category :=
@@ -344,7 +372,7 @@ def pluralCategoryWith (rule : NumType → Rule) (n : FluentNumber) : Option Cat
 
 /-- plural category of a number for a bundle whose first locale is `locale`, as the code computes it -/
 def pluralCategory (locale : String) (n : FluentNumber) : Option Category :=
-  pluralCategoryWith (crateRule (ruleLocale locale)) n
+  pluralCategoryWith (fun ty => crateRule (ruleLocale locale ty) ty) n
 
 /-! ## values, `matches`, select -/
 
